@@ -239,6 +239,8 @@ struct Node<C: SimCfg> {
     frame_at_heal: Option<i32>,
     /// per player: the last frame this node held of it at the moment it marked it disconnected
     cut_amount: BTreeMap<usize, i32>,
+    /// virtual time of this node's latest tick
+    last_tick_us: u64,
 }
 
 #[derive(Clone, Debug, Default)]
@@ -1053,11 +1055,26 @@ impl<'p, C: SimCfg> World<'p, C> {
         }
     }
 
-    fn do_api(&mut self, i: usize) {
+    /// A run-time delay change may also be called between two submissions of one tick (only in
+    /// plans with shuffled submissions, on nodes with several local players).
+    fn api_is_mid_submission(&self, i: usize, k: usize) -> bool {
+        self.plan.cfg.shuffle_submissions
+            && self.nodes[i].locals.len() >= 2
+            && matches!(self.plan.api[k].call, Api::SetDelay { .. })
+            && h(self.plan.seed, D_SUBMIT, &[k as u64, 7]) % 2 == 0
+    }
+
+    fn do_api(&mut self, i: usize, mid_submission: bool) {
         for k in 0..self.plan.api.len() {
             let a = &self.plan.api[k];
             if a.node != i || self.nodes[i].api_done[k] || a.at_us > self.now {
                 continue;
+            }
+            if self.api_is_mid_submission(i, k) != mid_submission {
+                continue;
+            }
+            if mid_submission {
+                *self.probes.extra.entry("delay_changes_between_submissions").or_insert(0) += 1;
             }
             self.nodes[i].api_done[k] = true;
             self.probes.api_calls += 1;
@@ -1164,6 +1181,7 @@ impl<'p, C: SimCfg> World<'p, C> {
     fn tick(&mut self, i: usize) {
         let ts = self.plan.nodes[i].tick.clone();
         let tick_no = self.nodes[i].tick_no;
+        self.nodes[i].last_tick_us = self.now;
         self.enter(i);
         let is_peer = matches!(self.nodes[i].sess, Sess::Peer(_));
         if ts.poll_only {
@@ -1197,7 +1215,7 @@ impl<'p, C: SimCfg> World<'p, C> {
             }
         }
         if is_peer {
-            self.do_api(i);
+            self.do_api(i, false);
             if self.fatal || !self.viol.is_empty() {
                 self.leave(i);
                 return;
@@ -1225,7 +1243,17 @@ impl<'p, C: SimCfg> World<'p, C> {
                 order.reverse();
             }
         }
-        for &l in &order {
+        for (n_sub, &l) in order.iter().enumerate() {
+            if n_sub == 1 {
+                // delay changes that fall between two submissions of this tick
+                self.do_api(i, true);
+                if self.fatal || !self.viol.is_empty() {
+                    self.leave(i);
+                    return;
+                }
+            }
+            let node = &mut self.nodes[i];
+            let Sess::Peer(s) = &mut node.sess else { unreachable!() };
             if cfg.shuffle_submissions && h(plan.seed, D_SUBMIT, &[i as u64, node.tick_no, l as u64, 1]) % 8 == 0 {
                 // a throw-away submission that the real one overwrites
                 let _ = s.add_local_input(l, C::enc(0xDEAD_0000 | l as u32));
@@ -1244,6 +1272,8 @@ impl<'p, C: SimCfg> World<'p, C> {
             }
             submitted.push((l, v));
         }
+        let node = &mut self.nodes[i];
+        let Sess::Peer(s) = &mut node.sess else { unreachable!() };
         let g0 = node.game.g;
         let res = if use_wait {
             let core = self.core.clone();
@@ -1367,7 +1397,16 @@ impl<'p, C: SimCfg> World<'p, C> {
         };
         ggrs::verif::set_wall_offset_ms(self.plan.nodes[i].wall_offset_ms as u128);
         // the exact lead is a real number of frames; the estimate is an integer within one frame of it
-        let lead_milli = if i == 0 { ts.lead_milli } else { -ts.lead_milli };
+        let mut lead_milli = if i == 0 { ts.lead_milli } else { -ts.lead_milli };
+        if cfg.max_prediction == 0 {
+            // lockstep: whoever ticks first stalls until the other side's first inputs are there, so
+            // the lead is not what the tick schedule says. It is read off the two frame counters:
+            // at this node's tick the other node is (time since its last tick) into its next frame.
+            let per = (1_000_000 / cfg.fps as u64) as i64;
+            let g_other = self.nodes[other].game.g as i64;
+            let since = (self.now - self.nodes[other].last_tick_us) as i64;
+            lead_milli = (g as i64 - g_other) * 1000 - since.min(per) * 1000 / per;
+        }
         let (lo, hi) = (lead_milli.div_euclid(1000) as i32 - 1, (lead_milli + 999).div_euclid(1000) as i32 + 1);
         // wait recommendations reported by this call
         let new_waits: Vec<u32> = self.nodes[i].events.iter().rev().take_while(|(t, _)| *t == self.now).filter_map(|(_, e)| if let Ev::Wait { skip } = e { Some(*skip) } else { None }).collect();
@@ -1387,6 +1426,9 @@ impl<'p, C: SimCfg> World<'p, C> {
         // before enough data exists: an error, not numbers
         if self.now < 1_000_000 && stats.is_ok() {
             bad.push(("c15.stats_too_early", format!("node {i}: network_stats() returned numbers {} ms after the session was created", self.now / 1000)));
+        }
+        if std::env::var("VERIF_TRACE_TS").is_ok() {
+            println!("  ts t={} node {i} frame {g} frames_ahead {fa} stats {:?}", self.now / 1000, stats.as_ref().ok().map(|s| (s.ping, s.local_frames_behind, s.remote_frames_behind)));
         }
         if self.now >= ts.measure_from_us && running {
             *self.probes.extra.entry("timesync_ticks_measured").or_insert(0) += 1;
@@ -2003,6 +2045,7 @@ impl<C: SimCfg> Node<C> {
             last_quality_report: None,
             frame_at_heal: None,
             cut_amount: BTreeMap::new(),
+            last_tick_us: 0,
         }
     }
 }
